@@ -391,3 +391,5 @@ MANIFEST = {
             "any DAG) is obtained by iterating the two proved lemmas; the single closed-form statement is not "
             "proved.",
 }
+
+MANIFEST_ADDENDUM = 'Also proved: disconnect_keeps_reported_grad, mkDupGraph_discards_family_grads.'
